@@ -68,7 +68,7 @@ func e8Expect(content []metav1.Object, f1, f2 *kit.Term) []string {
 }
 
 func e8Case(mask int, variant string, triples bool, perturbSeed uint64) Case {
-	id := fmt.Sprintf("E8/content%02d/%s/triples=%v", mask, variant, triples)
+	id := fmt.Sprintf("E8/content%02d/%s/triples=%v/%d", mask, variant, triples, perturbSeed)
 	return Case{ID: id, Desc: map[string]interface{}{"content_mask": mask, "variant": variant, "triples": triples}, Bubble: true, Run: func(r *Res) {
 		core := kit.NewCore(&kit.Plan{Seed: perturbSeed, PYield: 100})
 		g := newRootRig(core, nil)
@@ -200,7 +200,9 @@ func init() {
 		var cases []Case
 		for mask := 0; mask < 16; mask++ {
 			for _, v := range e8Variants {
-				cases = append(cases, e8Case(mask, v, tier == "thorough", seed))
+				for rep := 0; rep < tierPick(tier, 1, 4); rep++ {
+					cases = append(cases, e8Case(mask, v, tier == "thorough", seed+uint64(rep)*7919))
+				}
 			}
 		}
 		return cases
